@@ -40,6 +40,9 @@ pub struct LeafWork {
     #[serde(default)]
     pub edit_before_switch: Option<usize>,
     pub static_mode: bool,
+    /// how the source is handed to the cache: 0 as it is, 1 Box<S>, 2 Box<dyn Source>, 3 Arc<S>, 4 &'static S
+    #[serde(default)]
+    pub wrapper: u8,
     pub nkeys: usize,
     pub preload: Vec<usize>,
     pub rounds: Vec<Round>,
@@ -62,6 +65,13 @@ impl Property for C05 {
     }
     fn generate(&self, g: &mut SplitMix, k: &mut SplitMix, _tier: Tier) -> (Knobs, Value) {
         let knobs = Knobs::draw(k);
+        if g.chance(1, 12) {
+            // a real directory behind the FileSystem source and the notify stub: C12's end-to-end history (real
+            // operations, the notifications inotify sends for them, hot_reload, cached values against the directory)
+            let (_, mut w) = super::c12::C12.generate(g, &mut SplitMix::new(1), _tier);
+            w["end_to_end"] = serde_json::json!(true);
+            return (knobs, serde_json::json!({"mode": "fs", "w": w}));
+        }
         if g.chance(3, 5) {
             let mut w = crate::graph::generate(g, &crate::graph::GenOpts { helpers: false, single_entry_rounds: false, max_rounds: 4 });
             w.report_gained = true;
@@ -90,28 +100,35 @@ impl Property for C05 {
                 },
             })
             .collect();
-        let w = LeafWork { edit_before_switch: if g.chance(1, 2) { Some(g.below(nkeys as u64) as usize) } else { None }, static_mode: g.chance(1, 3), nkeys, preload: (0..nkeys).filter(|_| g.chance(4, 5)).collect(), rounds };
+        let w = LeafWork { wrapper: if g.chance(1, 3) { 1 + g.below(4) as u8 } else { 0 }, edit_before_switch: if g.chance(1, 2) { Some(g.below(nkeys as u64) as usize) } else { None }, static_mode: g.chance(1, 3), nkeys, preload: (0..nkeys).filter(|_| g.chance(4, 5)).collect(), rounds };
         (knobs, serde_json::json!({"mode": "leaf", "w": w}))
     }
     fn execute(&self, case: &Case) -> Outcome {
         let shape = fnv(case.work.to_string().as_bytes());
         let cfg = case.knobs.to_config(case.seed, case.tape.clone());
         reset_run();
-        let r = if case.work["mode"] == "graph" {
+        let r = if case.work["mode"] == "fs" {
+            let w: super::c12::Work = serde_json::from_value(case.work["w"].clone()).unwrap();
+            detsim::run(cfg, move || super::c12::scenario(w))
+        } else if case.work["mode"] == "graph" {
             let w: crate::graph::GWork = serde_json::from_value(case.work["w"].clone()).unwrap();
             detsim::run(cfg, move || crate::graph::scenario(w))
         } else {
             let w: LeafWork = serde_json::from_value(case.work["w"].clone()).unwrap();
             detsim::run(cfg, move || leaf_scenario(w))
         };
-        let nontrivial = r.counters.get("reach.reload_after_notified_edit").copied().unwrap_or(0) > 0;
+        let nontrivial = r.counters.get("reach.reload_after_notified_edit").copied().unwrap_or(0) > 0 || r.counters.get("reach.end_to_end_step").copied().unwrap_or(0) > 0;
         outcome_from(r, nontrivial, shape, |f| match f {
             detsim::Failure::Assertion(r, m) if r == "C05/stale-after-barrier" && m.contains("[plain]") => "C05/plain-barrier/stale".to_string(),
             detsim::Failure::Assertion(r, _) if r == "graph/gained-dependency-refreshed-in-same-pass" => "C05/gained-dependency-refreshed-in-same-pass".to_string(),
+            detsim::Failure::Assertion(r, _) if r.starts_with("C12/end-to-end/") => r.replace("C12/end-to-end/", "C05/filesystem/"),
             f => f.rule(),
         })
     }
     fn shrink(&self, work: &Value) -> Vec<Value> {
+        if work["mode"] == "fs" {
+            return super::c12::C12.shrink(&work["w"]).into_iter().map(|x| serde_json::json!({"mode": "fs", "w": x})).collect();
+        }
         if work["mode"] == "graph" {
             let w: crate::graph::GWork = serde_json::from_value(work["w"].clone()).unwrap();
             return crate::graph::shrink(&w).into_iter().map(|x| serde_json::json!({"mode": "graph", "w": x})).collect();
@@ -154,7 +171,23 @@ fn leaf_scenario(w: LeafWork) {
     tree.put("unrelated", "a", b"x");
     let src = SimSource::new(tree, HotMode::Custom, 3);
     // the cache is leaked in static mode (enhance_hot_reloading needs 'static); the runtime unwinds the reloader at the end of the run
-    let cache: &'static AssetCache<SimSource> = Box::leak(Box::new(AssetCache::with_source(src.clone())));
+    use assets_manager::source::Source;
+    match w.wrapper {
+        1 => leaf_on(w, Box::leak(Box::new(AssetCache::with_source(Box::new(src.clone())))), src),
+        2 => leaf_on(w, Box::leak(Box::new(AssetCache::with_source(Box::new(src.clone()) as Box<dyn Source + Send + Sync>))), src),
+        3 => leaf_on(w, Box::leak(Box::new(AssetCache::with_source(std::sync::Arc::new(src.clone())))), src),
+        4 => {
+            let leaked: &'static SimSource = Box::leak(Box::new(src.clone()));
+            leaf_on(w, Box::leak(Box::new(AssetCache::with_source(leaked))), src)
+        }
+        _ => leaf_on(w, Box::leak(Box::new(AssetCache::with_source(src.clone()))), src),
+    }
+}
+
+fn leaf_on<S: assets_manager::source::Source + Send + Sync + 'static>(w: LeafWork, cache: &'static AssetCache<S>, src: SimSource) {
+    if w.wrapper != 0 {
+        detsim::count("reach.wrapped_source");
+    }
     // model: current content per key (None = absent), cached value per key
     let mut file: BTreeMap<usize, Option<String>> = (0..w.nkeys).map(|k| (k, Some(format!("v0-{k}")))).collect();
     let mut cached: BTreeMap<usize, (String, u64)> = BTreeMap::new();
